@@ -929,8 +929,14 @@ def values_for(kind, rng):
         return [["speccls", "Base"], ["speccls", "Keyed"], ["class", 0], ["speccls", "Inner"], ["class", 1],
                 ["speccls", "Sub"], ["speccls", "Plain"]]
     if kind == "module":
+        # a module AFTER a spec instance inside one container: the instance's own copy is a nested guarded copy that
+        # ends before the module is reached (seed C10-G1: the nested exit must not withdraw the outer guard)
         return [["module", 0], ["module", 1], ["none"], ["speccls", "Keyed"], ["keyed", {"k": ["unset"], "b0": ["int", 1]}],
-                ["keyed", {"k": ["int", 1], "b0": ["int", 1]}]]
+                ["keyed", {"k": ["int", 1], "b0": ["int", 1]}],
+                ["list", [["keyed", {"k": ["str", "a"], "b0": ["int", 1]}], ["module", 0]]],
+                ["list", [["module", 1], ["keyed", {"k": ["str", "a"]}], ["module", 0]]],
+                ["dict", [[["str", "a"], ["keyed", {"k": ["str", "a"]}]], [["str", "b"], ["module", 1]]]],
+                ["tuple", [["keyed", {"k": ["int", 1]}], ["module", 0]]]]
     raise AssertionError(kind)
 
 
